@@ -1,5 +1,226 @@
-import LMV.Model.Score
+/-
+  C01 — Every backend computes the defined PSSM score at every position.
+
+  Layout of this file
+    §A  the definition: `windowScore` (the scalar-order sum of one window), over any carrier
+    §B  the generic backend computes it: cells of any row range, `unstripe` of a full scan,
+        `score_position`; no panic                                   (theorem groups (3) and (6))
+    §C  exact arithmetic: the scalar-order sum IS the sum, and is ⊥ iff a term is   (group (4))
+-/
+import LMV.Lemmas.Score
+import LMV.Props.C04
+import Mathlib.Algebra.Ring.Rat
+import Mathlib.Algebra.Order.Monoid.Unbundled.WithTop
+
 namespace LMV
 namespace C01
+
+open Score Striped C04
+
+variable {α : Type} {C K : Nat}
+
+/-! ## §A  the definition -/
+
+/-- the score of the window starting at position `i` of the sequence `s` (read with the wildcard
+    `N` past its end), in scalar order: `((zero + m[0][s⟦i⟧]) + m[1][s⟦i+1⟧]) + … + m[M-1][s⟦i+M-1⟧]`.
+    Nothing is assumed about `add`: for `f32` this is the IEEE sum as executed, including `-inf`. -/
+def windowScore (zero : α) (add : α → α → α) (pssm : Mat α K) (N : Nat) (s : List Nat) (i : Nat) : α :=
+  cellSum zero add pssm fun j => pad N s (i + j)
+
+/-- the same thing as a left fold over the list of terms -/
+theorem windowScore_eq_foldl (zero : α) (add : α → α → α) (pssm : Mat α K) (N : Nat) (s : List Nat)
+    (i : Nat) :
+    windowScore zero add pssm N s i =
+      List.foldl add zero ((List.range pssm.rows).map fun j => pssm.getD j (pad N s (i + j)) zero) := by
+  unfold windowScore cellSum
+  rw [List.foldl_map]
+
+theorem cellSum_congr (zero : α) (add : α → α → α) (pssm : Mat α K) (f g : Nat → Nat)
+    (h : ∀ j, j < pssm.rows → f j = g j) : cellSum zero add pssm f = cellSum zero add pssm g := by
+  unfold cellSum
+  apply foldl_ext_mem'
+  intro v j hj
+  rw [h j (List.mem_range.mp hj)]
+
+theorem pad_lt (N : Nat) (s : List Nat) (hs : ∀ x ∈ s, x < K) (hN : N < K) (p : Nat) : pad N s p < K := by
+  unfold pad
+  by_cases h : p < s.length
+  · have : s.getD p N = s[p] := by simp [List.getD, List.getElem?_eq_getElem h]
+    rw [this]; exact hs _ (List.getElem_mem h)
+  · rw [getD_of_le s p N (by omega)]; exact hN
+
+/-! ## §B  the generic backend -/
+
+/-- **C01 (3a) + (6), generic backend.**  Under the striping invariant of C04 (established by
+    `stripe_into` on any backend and preserved by every `configure`/`configure_wrap` history), with
+    at least `M − 1` wrap rows and a row range ending inside the sequence rows, the trait-default
+    `score_rows_into` does not panic, and
+      * yields no rows and `max_index = 0` when `L < M` or the range is empty,
+      * otherwise `b − a` rows, `max_index = L + 1 − M`, and cell `(r − a, c)` holds the scalar-order
+        score of the window at position `c·R + r` — for EVERY carrier and `add` (no law used). -/
+theorem scoreRowsGeneric_spec (_hC : 0 < C) (zero : α) (add : α → α → α) (pssm : Mat α K) (N : Nat)
+    (seq : Striped C) (s : List Nat) (inv : Inv N seq s) (hs : ∀ x ∈ s, x < K) (hN : N < K)
+    (hW : pssm.rows - 1 ≤ seq.wrap) (a b : Nat) (hb : b ≤ seqRowsOf C s.length) (sc0 : Scores α C) :
+    ∃ sc, scoreRowsGeneric zero add pssm seq a b sc0 = .ok sc ∧
+      if s.length < pssm.rows ∨ b ≤ a then sc.data.rows = 0 ∧ sc.maxIndex = 0
+      else sc.data.rows = b - a ∧ sc.maxIndex = s.length + 1 - pssm.rows ∧
+        ∀ r c, a ≤ r → r < b → c < C →
+          sc.data.getD (r - a) c zero = windowScore zero add pssm N s (c * seqRowsOf C s.length + r) := by
+  unfold scoreRowsGeneric
+  rw [inv.len]
+  by_cases hexit : s.length < pssm.rows ∨ b ≤ a
+  · rw [if_pos hexit]
+    refine ⟨_, rfl, ?_⟩
+    rw [if_pos hexit]
+    exact ⟨by simp [resize], rfl⟩
+  · rw [if_neg hexit]
+    have hok : ∀ k j col, k < b - a → j < pssm.rows → col < C →
+        a + k + j < seq.data.rows ∧ seq.data.getD (a + k + j) col 0 < K := by
+      intro k j col hk hj hcol
+      have hrow : a + k + j < seqRowsOf C s.length + seq.wrap := by omega
+      refine ⟨by rw [inv.rows]; exact hrow, ?_⟩
+      have := inv.cell (a + k + j) col hrow hcol
+      have e : seq.data.getD (a + k + j) col 0 = seq.data.get (a + k + j) col := rfl
+      rw [e, this]
+      exact pad_lt N s hs hN _
+    simp only [resize]
+    rw [rowsGeneric_ok zero add pssm seq.data a (b - a) _ hok]
+    refine ⟨_, rfl, ?_⟩
+    rw [if_neg hexit]
+    simp only
+    refine ⟨?_, trivial, ?_⟩
+    · rw [(genericRows_spec zero add pssm seq.data a (b - a) _ 0 0).1, Mat.rows_resize]
+    · intro r c har hrb hc
+      rw [(genericRows_spec zero add pssm seq.data a (b - a) _ (r - a) c).2, Mat.rows_resize,
+        if_pos ⟨by omega, by omega, by simpa using hc⟩]
+      unfold windowScore
+      apply cellSum_congr
+      intro j hj
+      have e : seq.data.getD (a + (r - a) + j) c 0 = seq.data.get (r + j) c := by
+        have : a + (r - a) = r := by omega
+        rw [this]; rfl
+      rw [e, lookahead N seq s inv r j c (by omega) (by omega) hc]
+
+/-- **C01 (6), generic backend**: no panic in contract (`M` may even be 0 here; the SIMD wrappers
+    need `M ≥ 1`, see §D) -/
+theorem scoreRowsGeneric_no_panic (hC : 0 < C) (zero : α) (add : α → α → α) (pssm : Mat α K) (N : Nat)
+    (seq : Striped C) (s : List Nat) (inv : Inv N seq s) (hs : ∀ x ∈ s, x < K) (hN : N < K)
+    (hW : pssm.rows - 1 ≤ seq.wrap) (a b : Nat) (hb : b ≤ seqRowsOf C s.length) (sc0 : Scores α C) :
+    ∀ e, scoreRowsGeneric zero add pssm seq a b sc0 ≠ .error e := by
+  intro e h
+  obtain ⟨sc, hsc, _⟩ := scoreRowsGeneric_spec hC zero add pssm N seq s inv hs hN hW a b hb sc0
+  rw [hsc] at h; cases h
+
+/-- **C01 (3b): the values returned.**  A full scan (`score` = `score_into` on an empty buffer, rows
+    `0 .. R`) followed by `unstripe()` returns exactly `L + 1 − M` values (none when `L < M`), and
+    value `i` is the scalar-order score of the window at position `i`. -/
+theorem score_unstripe (hC : 0 < C) (zero : α) (add : α → α → α) (pssm : Mat α K) (N : Nat)
+    (seq : Striped C) (s : List Nat) (inv : Inv N seq s) (hs : ∀ x ∈ s, x < K) (hN : N < K)
+    (hM : 1 ≤ pssm.rows) (hW : pssm.rows - 1 ≤ seq.wrap) :
+    ∃ sc, scoreFull (scoreRowsGeneric zero add pssm seq) seq = .ok sc ∧
+      (unstripe zero sc).length = s.length + 1 - pssm.rows ∧
+      ∀ i, i < s.length + 1 - pssm.rows →
+        (unstripe zero sc)[i]? = some (windowScore zero add pssm N s i) := by
+  unfold scoreFull scoreInto
+  rw [if_neg (by rw [inv.rows]; omega)]
+  have hrows : seq.data.rows - seq.wrap = seqRowsOf C s.length := by rw [inv.rows]; omega
+  rw [hrows]
+  obtain ⟨sc, hsc, hspec⟩ := scoreRowsGeneric_spec hC zero add pssm N seq s inv hs hN hW 0
+    (seqRowsOf C s.length) (Nat.le_refl _) Score.empty
+  refine ⟨sc, hsc, ?_⟩
+  by_cases hLM : s.length < pssm.rows
+  · rw [if_pos (Or.inl hLM)] at hspec
+    have hend : iterEnd sc = 0 := by unfold iterEnd; rw [hspec.2]; exact Nat.zero_min _
+    have hlen : s.length + 1 - pssm.rows = 0 := by omega
+    refine ⟨by unfold unstripe; rw [hend, hlen]; rfl, ?_⟩
+    intro i hi; omega
+  · have hL : 0 < s.length := by omega
+    have hR := seqRowsOf_pos hC hL
+    rw [if_neg (by omega)] at hspec
+    obtain ⟨h1, h2, h3⟩ := hspec
+    rw [Nat.sub_zero] at h1
+    have hge := seqRowsOf_mul_ge hC s.length
+    have hend : iterEnd sc = s.length + 1 - pssm.rows := by
+      unfold iterEnd; rw [h1, h2]; omega
+    refine ⟨by unfold unstripe; rw [hend]; simp, ?_⟩
+    intro i hi
+    unfold unstripe
+    rw [hend, List.getElem?_map, List.getElem?_range hi]
+    simp only [Option.map_some, h1, Nat.sub_zero]
+    have hcol : i / seqRowsOf C s.length < C := by
+      apply Nat.div_lt_of_lt_mul; omega
+    have hrow : i % seqRowsOf C s.length < seqRowsOf C s.length := Nat.mod_lt _ hR
+    have := h3 (i % seqRowsOf C s.length) (i / seqRowsOf C s.length) (Nat.zero_le _) hrow hcol
+    rw [Nat.sub_zero] at this
+    rw [this]
+    have e : i / seqRowsOf C s.length * seqRowsOf C s.length + i % seqRowsOf C s.length = i := by
+      rw [Nat.mul_comm]; exact Nat.div_add_mod i _
+    rw [e]
+
+/-- **C01 (3c)**: `ScoringMatrix::score_position(seq, i)` for a position `i ≤ L − M` does not panic
+    and returns the same scalar-order score. -/
+theorem scorePosition_spec (hC : 0 < C) (zero : α) (add : α → α → α) (pssm : Mat α K) (N : Nat)
+    (seq : Striped C) (s : List Nat) (inv : Inv N seq s) (hs : ∀ x ∈ s, x < K)
+    (i : Nat) (hi : i + pssm.rows ≤ s.length) :
+    scorePosition zero add pssm seq i = .ok (windowScore zero add pssm N s i) := by
+  unfold scorePosition windowScore cellSum
+  apply foldE_ok
+  intro v j hj
+  have hj := List.mem_range.mp hj
+  rw [index_eq hC N seq s inv (i + j) (by omega)]
+  have hlt : s.getD (i + j) N < K := by
+    have h : i + j < s.length := by omega
+    have : s.getD (i + j) N = s[i + j] := by simp [List.getD, List.getElem?_eq_getElem h]
+    rw [this]; exact hs _ (List.getElem_mem h)
+  simp only [hlt, if_true, pad]
+
+/-! ## §C  exact arithmetic -/
+
+section exact
+
+theorem foldl_add_eq_sum {β : Type} [AddMonoid β] (l : List β) (a : β) :
+    List.foldl (· + ·) a l = a + l.sum := by
+  induction l generalizing a with
+  | nil => simp
+  | cons x xs ih => rw [List.foldl_cons, ih, List.sum_cons, add_assoc]
+
+theorem sum_eq_bot_iff (l : List (WithBot ℚ)) : l.sum = ⊥ ↔ ∃ x ∈ l, x = ⊥ := by
+  induction l with
+  | nil => simp
+  | cons x xs ih =>
+    rw [List.sum_cons, WithBot.add_eq_bot, ih]
+    constructor
+    · rintro (h | ⟨y, hy, hb⟩)
+      · exact ⟨x, by simp, h⟩
+      · exact ⟨y, by simp [hy], hb⟩
+    · rintro ⟨y, hy, hb⟩
+      rcases List.mem_cons.mp hy with rfl | hy
+      · exact Or.inl hb
+      · exact Or.inr ⟨y, hy, hb⟩
+
+/-- the terms of the window at position `i`: `m[j][s⟦i+j⟧]` for `j < M` -/
+def windowTerms (zero : α) (pssm : Mat α K) (N : Nat) (s : List Nat) (i : Nat) : List α :=
+  (List.range pssm.rows).map fun j => pssm.getD j (pad N s (i + j)) zero
+
+/-- **C01 (4)**: over exact scores with an absorbing `−∞` (`WithBot ℚ`: `⊥ + x = ⊥`), the scalar-order
+    score is the sum over `j` of `matrix[j][sequence[i+j]]` … -/
+theorem windowScore_exact (pssm : Mat (WithBot ℚ) K) (N : Nat) (s : List Nat) (i : Nat) :
+    windowScore 0 (· + ·) pssm N s i = (windowTerms 0 pssm N s i).sum := by
+  rw [windowScore_eq_foldl, foldl_add_eq_sum, zero_add]; rfl
+
+/-- … and it is `−∞` as soon as (and only if) one term is -/
+theorem windowScore_eq_bot_iff (pssm : Mat (WithBot ℚ) K) (N : Nat) (s : List Nat) (i : Nat) :
+    windowScore 0 (· + ·) pssm N s i = ⊥ ↔ ∃ j, j < pssm.rows ∧ pssm.getD j (pad N s (i + j)) 0 = ⊥ := by
+  rw [windowScore_exact, sum_eq_bot_iff]
+  unfold windowTerms
+  constructor
+  · rintro ⟨x, hx, hb⟩
+    obtain ⟨j, hj, rfl⟩ := List.mem_map.mp hx
+    exact ⟨j, List.mem_range.mp hj, hb⟩
+  · rintro ⟨j, hj, hb⟩
+    exact ⟨_, List.mem_map.mpr ⟨j, List.mem_range.mpr hj, rfl⟩, hb⟩
+
+end exact
+
 end C01
 end LMV
